@@ -396,3 +396,45 @@ func H06FixedHistory() {
 	}
 	vndReach("h06:fixed-history")
 }
+
+// H06FixedMore: (a) an expression that is rejected leaves the caller's filter as it was,
+// even when an earlier part of it carried a fixed value list; (b) a fixed value list on
+// .fullname, .name and a sub-name key removes exactly the results whose value is not listed.
+func H06FixedMore() {
+	st := h06Symbolic(1)
+	res := h06Build(st)
+	full := string([]byte{st.nm, '/', 's', '=', st.s})
+	// (a)
+	filter, err := NewFilter("*")
+	if err != nil {
+		panic(err)
+	}
+	var pp ProjectionParser
+	for _, bad := range []string{"a@(x z),b@bogus", "a@(x z),.unit", "a@(x z) .config@(p q)", "a@(x z),c@()"} {
+		if _, err := pp.Parse(bad, filter); err == nil {
+			vndAssert(false, "invalid-projection-rejected")
+		}
+	}
+	m, _ := filter.Match(res)
+	vndAssert(m.Test(0), "rejected-expression-leaves-the-filter-unchanged")
+	// (b)
+	which := vndParam("key")
+	expr := []string{`.fullname@("N/s=1" "Q/s=2")`, `.name@(N Q)`, `/s@(1 2)`}[which]
+	f2, _ := NewFilter("*")
+	var pp2 ProjectionParser
+	if _, err := pp2.Parse(expr, f2); err != nil {
+		panic(err)
+	}
+	var want bool
+	switch which {
+	case 0:
+		want = vndOr(full == "N/s=1", full == "Q/s=2")
+	case 1:
+		want = vndOr(st.nm == 'N', st.nm == 'Q')
+	default:
+		want = vndOr(st.s == '1', st.s == '2')
+	}
+	m2, _ := f2.Match(res)
+	vndReach("h06:fixed-more")
+	vndAssert(m2.Test(0) == want, "fixed-list-removes-exactly-the-unlisted")
+}
